@@ -504,6 +504,9 @@ def search(ctx):
                     first, cont = (0, e0), (fc, e1)
                     shapes += [[first, cont], [cont, first], [first, cont, cont], [cont, cont]]
         shapes += [[(0, 0)], [(1, 0)], [(0, 0), (0, 1)]]
+        # joining the bus in the middle of a message: stray continuation frames of full size and NO first frame — nothing is
+        # known about that message, so the next complete one may carry any counter, the very same one included
+        shapes += [[(1, 7)], [(2, 7), (3, 7)], [(1, 7), (1, 7)], [(3, 2)]]
         for trial in range(len(shapes) + ctx.n(6, 40)):
             gs = rng.randrange(8)
             garbage = []
@@ -513,8 +516,10 @@ def search(ctx):
                 body = bytes([(gs << 5) | fc]) + (bytes([rng.choice([9, 20, 30])]) if fc == 0 else b"") + \
                     bytes(rng.getrandbits(8) for _ in range(extra))
                 garbage.append((H.mk_pkt(pgn, 5, dst, 3, body, len(body)), False))
+            same_ok = all(fc != 0 for fc, _ in spec)          # no first frame seen: the probe may reuse the counter
+            pc = gs if (same_ok and trial % 2 == 0) else (gs + 1 + rng.randrange(7)) % 8
             probe = [(H.mk_pkt(pgn, 5, dst, 3, (f + bytes([0xFF] * 8))[:8], 8), False)
-                     for f in H.fast_frames(payload, (gs + 1 + rng.randrange(7)) % 8)]
+                     for f in H.fast_frames(payload, pc)]
             r = c16_probe_oracle(plain, garbage, probe)
             if r:
                 key = f"C16:{r[0]}-probe-depends-on-history"
